@@ -400,9 +400,17 @@ def afterPhases (rm : Remotes) (mem : OSet) (pr : PhasesRes) (w : World) : World
   | .ok (_, some failing) => if mem.lifecycle = Lifecycle.paused then syncPausedAfter rm mem failing w else w
   | _ => w
 
+/-- the head of `objectSetPhasesReconciler.Reconcile` (fix C09-b): a PAUSED ObjectSet first hands the
+pause to every existing phase object of its delegated phases — before the ObjectSet-level preflight
+and before any phase is looked at, so that no error of the pass can leave their controllers running. -/
+def beforePhases (rm : Remotes) (mem : OSet) (w : World) : World :=
+  if mem.lifecycle = Lifecycle.paused then
+    (mem.phases.filter (·.cls ≠ "")).foldl (fun w ph => rm.sync mem ph w) w
+  else w
+
 /-- `objectSetPhasesReconciler.Reconcile` + the tail of the controller pass, for an ObjectSet
 that is active or paused (not deleting, not archived), after finalizer and revision handling. -/
-def activePhases (cfg : Cfg) (rm : Remotes) (s : Sys) (mem : OSet) : Sys × Res :=
+def activePhasesCore (cfg : Cfg) (rm : Remotes) (s : Sys) (mem : OSet) : Sys × Res :=
   if hasDuplicates mem.phases then statusFromError s mem "PreflightError"
   else
     let prev := lookupPrev s mem
@@ -416,6 +424,24 @@ def activePhases (cfg : Cfg) (rm : Remotes) (s : Sys) (mem : OSet) : Sys × Res 
     | .error .collision => statusFromError s mem "CollisionDetected"
     | .error .other => (s, .err)
     | .ok (controllerOf, failing) => finish s (deriveStatus mem controllerOf failing) .ok
+
+/-- `objectSetPhasesReconciler.Reconcile`: the pause hand-over (`beforePhases`, fix C09-b), then the rest. -/
+def activePhases (cfg : Cfg) (rm : Remotes) (s : Sys) (mem : OSet) : Sys × Res :=
+  activePhasesCore cfg rm { s with w := beforePhases rm mem s.w } mem
+
+theorem beforePhases_not_paused (rm : Remotes) (mem : OSet) (w : World) (h : mem.lifecycle ≠ Lifecycle.paused) :
+    beforePhases rm mem w = w := by
+  simp [beforePhases, h]
+
+theorem beforePhases_local (rm : Remotes) (mem : OSet) (w : World) (h : ∀ ph ∈ mem.phases, ph.cls = "") :
+    beforePhases rm mem w = w := by
+  unfold beforePhases
+  split
+  · have : mem.phases.filter (·.cls ≠ "") = [] := by
+      apply List.filter_eq_nil_iff.mpr
+      intro ph hph; simp [h ph hph]
+    rw [this]; rfl
+  · rfl
 
 /-- `revisionReconciler.Reconcile`: `.error r` = the pass ends here with result `r`. -/
 def revisionStep (s : Sys) (mem : OSet) : Sys × Except Res OSet :=
